@@ -63,6 +63,7 @@ OrigData(attrs) == IF Get(attrs, "null", FALSE) = TRUE THEN "orig-n" ELSE "orig-
 Field(t, attrs) == [ftype |-> t, attrs |-> attrs, rel |-> None, data |-> OrigData(attrs)]
 FKField(target, attrs) == [ftype |-> "FK", attrs |-> attrs, rel |-> target, data |-> OrigData(attrs)]
 IdField == Field("Auto", D1("primary_key", TRUE))
+M2MField(target) == [ftype |-> "M2M", attrs |-> EmptyDict, rel |-> target, data |-> "orig-nn"]
 IxFG   == [fields |-> <<"f", "g">>, name |-> "ix_fg", cond |-> None]
 IxCond == [fields |-> <<"f">>, name |-> "ix_cond", cond |-> "g"]      \* condition=Q(g__gt=0)
 IxH    == [fields |-> <<"h">>, name |-> "ix_h", cond |-> None]
@@ -99,6 +100,12 @@ Start(id) ==
                            g |-> Field("Int", D1("db_column", "gcol"))], << <<"f", "g">> >>),
          B |-> Model("B", [id |-> IdField,
                            f |-> Field("Char", D1("max_length", 10))], <<>>)]
+    [] id = 8 ->          \* A declares a many-to-many relation to B
+        [A |-> Model("A", [id |-> IdField,
+                           f |-> Field("Char", D1("max_length", 10)),
+                           g |-> M2MField("B")], <<>>),
+         B |-> Model("B", [id |-> IdField,
+                           f |-> Field("Int", EmptyDict)], <<>>)]
     [] id = 7 ->          \* Meta.indexes: a two-column index and a conditional (partial) index
         [A |-> [Model("A", [id |-> IdField,
                             f |-> Field("Char", D1("max_length", 10)),
@@ -174,6 +181,15 @@ Alphabet ==
                   MAdd("A", x, "Int", D1("null", TRUE), None),
                   MDel("A", x) } \cup { MRenF("A", x, y) : y \in FieldNames \ {x} }
                 : x \in FieldNames }
+    [] AlphaId = 8 ->      \* many-to-many: the models at both ends renamed / deleted, fields added / renamed / deleted
+        { MRenM("A", "C"), MRenM("B", "C"), MDelM("A"), MDelM("B"),
+          MAdd("A", "h", "M2M", D1("related_model", "B"), None),
+          MAdd("B", "h", "M2M", D1("related_model", "A"), None),
+          MAdd("C", "h", "M2M", D1("related_model", "B"), None),
+          MDel("A", "g"), MDel("A", "h"), MDel("C", "g"), MRenF("A", "g", "h"), MRenF("C", "g", "h"),
+          MAdd("A", "h", "Int", D1("null", TRUE), None),
+          MChg("A", "f", None, D1("max_length", 20), None),
+          MChg("C", "f", None, D1("max_length", 20), None) }
     [] AlphaId = 7 ->      \* Meta.indexes (plain and conditional) next to rebuilds of the same table
         { MAdd("A", "h", "Int", D1("null", TRUE), None),
           MAdd("A", "h", "Char", D1("max_length", 10), "i"),
@@ -487,8 +503,17 @@ OpsOf(mu, sig) ==
     [] OTHER -> <<>>
 
 (* hazards of one mutation on its own, whatever it is merged with *)
+(* Django names the columns of a many-to-many table after the models at its two
+   ends (and the table after the owner's table and the field): renaming either
+   model, or the field, is meant to rename them *)
+M2MEnds(sig, mn) ==
+    (\E fn \in DOMAIN sig[mn].fields : sig[mn].fields[fn].ftype = "M2M")
+    \/ (\E m2 \in DOMAIN sig : \E fn \in DOMAIN sig[m2].fields :
+            sig[m2].fields[fn].ftype = "M2M" /\ sig[m2].fields[fn].rel = mn)
+
 MutHazards(mu, sig) ==
-    IF mu.k = "Chg"
+    IF mu.k = "RenM" /\ M2MEnds(sig, mu.om) THEN {"m2m-end-renamed"}
+    ELSE IF mu.k = "Chg"
     THEN LET old == sig[mu.m].fields[mu.f]
              typeChanged == /\ mu.ftype # None /\ old.ftype # mu.ftype
                             /\ DbType(old.ftype, old.attrs) #
